@@ -1,8 +1,10 @@
 import Driver.Codec
 import Driver.FromJson
+import Driver.Introspect
 import TartModel.Impl.ExecT
 import TartModel.Impl.Subscription
 import TartModel.Spec.Validation
+import TartModel.Spec.TypeSystem
 import TartModel.Generated.Scalars
 /- Line-protocol driver: one JSON request per line on stdin, one JSON answer per line on stdout. -/
 open Lean Tart Tart.Codec Tart.FromJson
@@ -110,6 +112,17 @@ def handle (j : Json) : Except String Json := do
     let sv := Spec.V.violations .spec 2000 S doc
     let ev := Spec.V.violations .engine 2000 S doc
     pure (Json.mkObj [("spec", Json.arr (sv.map Json.str).toArray), ("engine", Json.arr (ev.map Json.str).toArray)])
+  | "describe" =>
+    let M ← IntrospectIO.decodeSModel (← j.getObjVal? "model")
+    let named := (arrField j "names").filterMap fun n => match n with | Json.str s => some s | _ => none
+    pure (Json.mkObj [("schema", IntrospectIO.encodeSchemaDesc (Spec.I.describe M)),
+                      ("named", Json.mkObj (named.map fun n => (n, match Spec.I.describeNamed M n with
+                                                                   | some t => IntrospectIO.encodeTypeDesc t | none => Json.null)))])
+  | "schema_check" =>
+    let M ← IntrospectIO.decodeSModel (← j.getObjVal? "model")
+    let impl := (arrField j "implemented").filterMap fun n => match n with | Json.str s => some s | _ => none
+    pure (Json.mkObj [("violations", Json.arr ((Spec.TS.violations M impl).map Json.str).toArray),
+                      ("beyond", Json.arr ((Spec.TS.beyond M).map Json.str).toArray)])
   | "echo" => pure (Json.mkObj [("ok", encode (← decode (← j.getObjVal? "value")))])
   | _ => throw s!"unknown op {op}"
 
